@@ -611,6 +611,68 @@ func predicateTables(c *core.Ctx, r *core.Report) {
 				}
 			}
 		}
+		// the verdict belongs to the component, not to the option: one option applied to two components of one type
+		// whose methods answer differently judges each by its own answer, in either order
+		for _, firstMatches := range []bool{true, false} {
+			t := newTbl(c)
+			parsed := absint.NewTok("parsed(x)", "any")
+			sameType := absint.NewTok("T:shared", "type")
+			mk := func(id string) *absint.Tok {
+				m := absint.NewTok(id, "meta")
+				b := absint.NewTok(id+".Base", "base")
+				b.Fields["Type"], b.Fields["Value"] = sameType, absint.NewTok(id+".Value", "rvalue")
+				m.Fields["Base"] = b
+				return m
+			}
+			ms := []*absint.Tok{mk("m1"), mk("m2")}
+			matches := map[string]bool{"m1": firstMatches, "m2": !firstMatches}
+			owner := func(v absint.Value) string {
+				if tk, ok := v.(*absint.Tok); ok {
+					return strings.SplitN(strings.TrimPrefix(tk.ID, "method:"), ".", 2)[0]
+				}
+				return ""
+			}
+			t.ext["(reflect.Value).MethodByName"] = func(ip *absint.Interp, a []absint.Value) absint.Value {
+				return absint.NewTok("method:"+owner(a[0]), "rvalue")
+			}
+			t.ext["(reflect.Value).IsValid"] = func(ip *absint.Interp, a []absint.Value) absint.Value { return absint.Bool(true) }
+			t.ext["(reflect.Value).Call"] = func(ip *absint.Interp, a []absint.Value) absint.Value {
+				return &absint.List{Elems: []absint.Value{absint.NewTok("method:"+owner(a[0])+".result", "rvalue")}}
+			}
+			t.ext["(reflect.Value).Interface"] = func(ip *absint.Interp, a []absint.Value) absint.Value {
+				if matches[owner(a[0])] {
+					return parsed
+				}
+				return absint.NewTok("other", "any")
+			}
+			t.ext["github.com/go-kid/strconv2.ParseAny"] = func(ip *absint.Interp, a []absint.Value) absint.Value {
+				return absint.Tuple{parsed, absint.Nil{}}
+			}
+			ip := absint.New(t)
+			ip.IsLog, ip.InScope = core.IsLogCall, c.InScope
+			out := ip.Run(ctor, []absint.Value{absint.Str("wanted"), absint.Str("x")}, nil)
+			runs++
+			var verdicts []string
+			for _, m := range ms {
+				if out.Undecided != nil || out.Panic != nil || len(out.Ret) != 1 {
+					break
+				}
+				var o2 absint.Outcome
+				switch f := out.Ret[0].(type) {
+				case *absint.Closure:
+					o2 = ip.Run(f.Fn, []absint.Value{m}, f.Bind)
+				case *ssa.Function:
+					o2 = ip.Run(f, []absint.Value{m}, nil)
+				}
+				if o2.Undecided != nil {
+					bad = "left the model (two components of one type): " + o2.Undecided.Msg
+				}
+				verdicts = append(verdicts, showOutcome(o2))
+			}
+			if want := fmt.Sprintf("[(%v) (%v)]", firstMatches, !firstMatches); bad == "" && fmt.Sprint(verdicts) != want {
+				bad = fmt.Sprintf("one option applied to two components of the same type whose methods return (matching=%v, matching=%v): verdicts %v, want %s", firstMatches, !firstMatches, verdicts, want)
+			}
+		}
 		r.Check(bad == "", "C06.R2", "predicate:container.FuncNameAndResult:table", c.FnPos(ctor), fmt.Sprintf("FuncNameAndResult accepts exactly the components whose method of the requested name returns the requested result ('*' any, '' also none), calling it at most once (%d abstract runs) %s", runs, bad))
 	} else {
 		r.Undecided("C06.R2", "predicate:container.FuncNameAndResult:table", "", "container.FuncNameAndResult not found")
